@@ -259,9 +259,9 @@ class Beh:
         self.add({"k": "space", "o": o})
 
     # bit structures with positions beyond 2^32: `base` zeros followed by the tail s
-    def newbig(self, kind, base, s):
+    def newbig(self, kind, base, s, fill=0):
         o = self.fresh()
-        self.add({"k": "newbig", "o": o, "kind": kind, "base": sym(base),
+        self.add({"k": "newbig", "o": o, "kind": kind, "base": sym(base), "fill": fill,
                   "segs": [{"pat": [s.alpha[i - 1] for i in p], "rep": r} for p, r in s.segs]})
         return o
 
